@@ -226,7 +226,7 @@ def run(ctx, only=None):
             return d != "r1"
         if mode == "gc":
             # the collector's mark visit goes to fibers that LISTEN on a stream: scenarios with a stream wait (+ net/accept corpus)
-            return d == "none" and n in ("none", "try") and (sc.meta.get("A") in gen.STREAMY + ("accept",) or sc.meta.get("B") in ("read", "write"))
+            return d == "none" and n in ("none", "try") and (sc.meta.get("A") in gen.STREAMY + ("accept", "connect") or sc.meta.get("B") in ("read", "write"))
         if mode == "early":
             return d == "none" and n in ("none", "try") and sc.meta.get("abandon") not in ("gsib", "gpar")
         return d in ("none", "r3") and n in ("none", "try", "defer+try")
@@ -277,7 +277,7 @@ def run(ctx, only=None):
     ngcdiff = 0
     for sid, _ in gc_items:
         s = byid[sid]
-        if sid in res and sid in res_gc and not s.thrs and s.meta.get("A") != "accept" and res[sid]["status"] == "ok":
+        if sid in res and sid in res_gc and not s.thrs and s.meta.get("A") not in ("accept", "connect") and res[sid]["status"] == "ok":
             la = [l for l in res[sid]["lines"] if not l.startswith("K ")]
             lb = [l for l in res_gc[sid]["lines"] if not l.startswith("K ")]
             if s.meta.get("abandon") in ("gsib", "gpar"):
